@@ -289,8 +289,8 @@ def schema_st(draw, en):
     ncols = draw(st.sampled_from([0, 1, 1, 2, 2, 3, 4]))
     keys = []
     for _ in range(ncols):
-        kind = draw(st.sampled_from(["plain", "plain", "plain", "text", "regex",
-                                     "int" if "colkey-nonstr" in en else "text"]))
+        kind = draw(st.sampled_from(["plain", "plain", "plain", "text", "regex"]
+                                    + (["int"] * 5 if "colkey-nonstr" in en else ["text"])))
         if kind == "plain":
             k = draw(st.sampled_from(["a", "b", "c", "col", "x1", "Ab", "price", "ts"]))
         elif kind == "text":
@@ -461,7 +461,7 @@ def case_st(draw, n_probes=3):
     en = frozenset()
     if mode == "wild":
         # 1-3 of the features with a recorded defect: the search goes on behind each of them separately
-        en = frozenset(draw(st.lists(st.sampled_from(KNOWN_BAD), min_size=1, max_size=3, unique=True)))
+        en = frozenset(draw(st.lists(st.sampled_from(KNOWN_BAD + ["colkey-nonstr"]), min_size=1, max_size=3, unique=True)))
     spec = draw(schema_st(en))
     probes = [draw(probe_st(spec)) for _ in range(n_probes)]
     return {"mode": mode, "schema": spec, "probes": probes}
